@@ -17,10 +17,10 @@ rm -f /tmp/seed_check_$P.log
 log "suite with patch: PASS=$pass FAIL/ERROR=$fail"
 timeout 180 bash $DEMO/run.sh $WT > /tmp/seed_demo_$P.log 2>&1; with=$?
 log "demo with patch: exit $with"
-git stash -q && make -j16 >/dev/null 2>&1
+git checkout -q -- . && make -j16 >/dev/null 2>&1   # NOT git stash: refs/stash is shared by all worktrees of /repo
 timeout 180 bash $DEMO/run.sh $WT > /tmp/seed_demo2_$P.log 2>&1; without=$?
 log "demo without patch: exit $without"
-git stash pop -q
+git apply $OUT/patch.diff && make -j16 >/dev/null 2>&1
 rm -f /tmp/seed_demo_$P.log /tmp/seed_demo2_$P.log
 cp -r $DEMO/demo* $DEMO/run.sh $DEMO/meta.json $OUT/ 2>/dev/null
 ok=0
